@@ -292,6 +292,7 @@ def run(model: Model, rep: Report) -> None:
     r5.check(ok4, site(rl), rl.qualname, "the page is rendered, then exactly one form feed is written", why=f"tail statements {tail[-2:]}")
     _control_chars(model, rep)
     _xml_attribute_bindings(model, rep)
+    _sinks_and_selection(model, rep)
 
 
 def _control_chars(model: Model, rep: Report) -> None:
@@ -386,3 +387,40 @@ def _xml_attribute_bindings(model: Model, rep: Report) -> None:
                     r7.check(got == want, site(f, e), q, f"<{tag} {a}=...> <- {want}", why=f"filled from `{got}`: the XML reports another quantity than the tree holds (e.g. for vertical fonts LTChar.size is the glyph's width, not its height)")
     missing = sorted(set(WANT) - seen)
     r7.check(not missing, CV + "XMLConverter", CV + "XMLConverter", "every attribute of the reviewed table is written", why=f"not found: {missing}")
+
+
+def _sinks_and_selection(model: Model, rep: Report) -> None:
+    """C11-R8: which converter serves which output type, with the caller's codec / laparams / strip_control / imagewriter, and
+    how a sink is classified as binary or text."""
+    r8 = rep.rule("C11-R8", "BIND", "extract_text_to_fp: output type -> converter with the caller's options passed under their own names; sinks: a mode containing 'b' / BytesIO are binary, a mode without 'b' / StringIO / TextIOBase are text", 6)
+    f = model.func("pdfminer.high_level.extract_text_to_fp")
+    want = {
+        "text": ("TextConverter", {"codec": "codec", "laparams": "laparams", "imagewriter": "imagewriter"}),
+        "xml": ("XMLConverter", {"codec": "codec", "laparams": "laparams", "imagewriter": "imagewriter", "stripcontrol": "strip_control"}),
+        "html": ("HTMLConverter", {"codec": "codec", "scale": "scale", "layoutmode": "layoutmode", "laparams": "laparams", "imagewriter": "imagewriter"}),
+        "hocr": ("HOCRConverter", {"codec": "codec", "laparams": "laparams", "stripcontrol": "strip_control"}),
+        "tag": ("TagExtractor", {"codec": "codec"}),
+    }
+    found = {}
+    for n in walk_no_nested(f.node):
+        if isinstance(n, ast.If) and isinstance(n.test, ast.Compare) and unparse(n.test.left) == "output_type" and isinstance(n.test.ops[0], ast.Eq) and isinstance(n.test.comparators[0], ast.Constant):
+            calls = [c for st in n.body for c in [st] + list(walk_no_nested(st)) if isinstance(c, ast.Call) and isinstance(c.func, ast.Name) and c.func.id.endswith(("Converter", "Extractor"))]
+            if calls:
+                found[n.test.comparators[0].value] = calls[0]
+    for ot, (cls, kws) in want.items():
+        c = found.get(ot)
+        if c is None:
+            r8.violation(site(f), f.qualname, f"output_type == {ot!r}", "branch not found")
+            continue
+        got = {k.arg: "".join(unparse(k.value).split()) for k in c.keywords}
+        pos = ["".join(unparse(a).split()).replace("cast(BinaryIO,outfp)", "outfp") for a in c.args]
+        r8.check(c.func.id == cls and pos[:2] == ["rsrcmgr", "outfp"] and got == kws, site(f, c), f.qualname, f"{ot!r} -> {cls}(rsrcmgr, outfp, {', '.join(k + '=' + v for k, v in kws.items())})", why=f"got {c.func.id}({', '.join(pos)}, {got})")
+    bs = model.func(CV + "PDFConverter._is_binary_stream")
+    arms = []
+    cur = next((n for n in bs.node.body if isinstance(n, ast.If)), None)  # type: ignore[attr-defined]
+    while isinstance(cur, ast.If):
+        ret = [s for s in cur.body if isinstance(s, ast.Return)]
+        arms.append(("".join(unparse(cur.test).split()), unparse(ret[0].value) if ret else None))
+        cur = cur.orelse[0] if len(cur.orelse) == 1 and isinstance(cur.orelse[0], ast.If) else None
+    want_arms = [("'b'ingetattr(outfp,'mode','')", "True"), ("hasattr(outfp,'mode')", "False"), ("isinstance(outfp,io.BytesIO)", "True"), ("isinstance(outfp,io.StringIO)orisinstance(outfp,io.TextIOBase)", "False")]
+    r8.check(arms == want_arms, site(bs), bs.qualname, "mode with 'b' -> binary; any other mode -> text; BytesIO -> binary; StringIO / TextIOBase -> text; otherwise binary", why=f"{arms}")
